@@ -159,6 +159,72 @@ def align_rules(facts, rep):
         v = cands[0]
         good = "len()" in tokens(v) and any(y[0] == "call" and y[1].endswith("from_elem") for y in walk(v))
     ok &= rep.check(good, rule, "pad-record-length", where(f, f.span), "pad record length field = length of the pad", "pad record length is not the pad vector's length")
+    # the pad length itself: the record costs 4 bytes of header, so the pad must satisfy (data_start + 4 + pad) % align == 0 with
+    # 0 <= pad < align.  The expression that sizes the pad vector is reconstructed from the MIR (over `align` and the preliminary data
+    # start) and evaluated on a grid of (align, data_start) pairs -- every align in 2..=64 and a few large ones, 300 offsets each;
+    # agreement on the grid is taken as the identity of two expressions built from + - % over u64 (stated in the evidence).  A wrong
+    # formula does not misalign silently: it trips the self-check above, i.e. start_file_aligned panics for some (align, offset).
+    fe = calls_matching(f, r"from_elem$")
+    good, why = len(fe) == 1, "no single pad vector"
+    if good:
+        pv = norm(ex.operand(fe[0][1]["args"][1], (fe[0][0], None)))
+        n_eval = 0
+
+        class _Bad(Exception):
+            pass
+
+        def ev(e, A, D):
+            k = e[0]
+            if k == "cast":
+                return ev(e[1], A, D)
+            if k == "arg" and e[2] == "align":
+                return A
+            if k in ("const", "named") and isinstance(e[2], int):
+                return e[2]
+            if k == "ok" and any(y[0] == "call" and y[1].endswith("start_file_with_extra_data") for y in walk(e)):
+                return D
+            if k == "call" and e[1].endswith("start_file_with_extra_data"):
+                return D
+            if k == "bin":
+                a_, b_ = ev(e[2], A, D), ev(e[3], A, D)
+                op = e[1].replace("WithOverflow", "")
+                if op == "Add":
+                    r_ = a_ + b_
+                elif op == "Sub":
+                    r_ = a_ - b_
+                elif op == "Mul":
+                    r_ = a_ * b_
+                elif op in ("Rem", "Div"):
+                    if b_ == 0:
+                        raise _Bad("division by zero")
+                    r_ = a_ % b_ if op == "Rem" else a_ // b_
+                elif op == "BitAnd":
+                    r_ = a_ & b_
+                else:
+                    raise _Bad("operator %s" % op)
+                if r_ < 0 or r_ >= 1 << 64:
+                    raise _Bad("leaves u64 at align=%d data_start=%d" % (A, D))
+                return r_
+            if k == "call" and re.search(r"::(wrapping_sub|wrapping_add)$", e[1]) and len(e[2]) == 2:
+                a_, b_ = ev(e[2][0], A, D), ev(e[2][1], A, D)
+                return (a_ - b_ if "sub" in e[1] else a_ + b_) % (1 << 64)
+            if k == "call" and re.search(r"::rem_euclid$", e[1]) and len(e[2]) == 2:
+                return ev(e[2][0], A, D) % ev(e[2][1], A, D)
+            raise _Bad("term %s" % show(e)[:50])
+        try:
+            for A in list(range(2, 65)) + [100, 255, 256, 4096, 32768, 65535]:
+                for D in list(range(30, 330)) + [A * 1000 - 1, A * 1000 + 1, (1 << 32) + 5]:
+                    if D % A == 0:
+                        continue
+                    n_eval += 1
+                    pad = ev(pv, A, D)
+                    if not (0 <= pad < A and (D + 4 + pad) % A == 0):
+                        raise _Bad("align=%d, data_start=%d gives a pad of %d: the data would start at %d (%% align = %d)" % (A, D, pad, D + 4 + pad, (D + 4 + pad) % A))
+        except _Bad as e_:
+            good, why = False, str(e_)
+        rep.count("alignment_grid_points", n_eval)
+    ok &= rep.check(good, rule, "pad-length-identity", where(f, f.span), "(data_start + 4 + pad) % align == 0 and pad < align at every grid point",
+                    "the pad length %s is wrong: %s -- the entry is not aligned (the method's own self-check panics there)" % (show(pv)[:90] if fe else "?", why))
     ra = ret_alts(f)
     good = any(a[0] == "agg" and a[1] == "adt:Ok" and a[3][0][1][0] == "bin" and a[3][0][1][1] == "Sub" and
                any(y[0] == "call" and y[1].endswith("end_extra_data") for y in walk(a[3][0][1][2])) and
@@ -176,7 +242,8 @@ def run(ctx, rep):
         "re-patched at its APPNOTE offset with the header writer's own expression; local part cleared before the central part; central "
         "record carries extra_field after the ZIP64 block (C02 tables); rejection rows and a complete scan of the reserved-id table, "
         "which covers every id APPNOTE reserves. Alignment: only structure (validated path, pad/self-check predicate agreement, pad "
-        "record length, return value) -- the modular-arithmetic identity is not decided by this family.")
+        "record length, return value) and the pad-length identity (data_start + 4 + pad) % align == 0, decided by evaluating the pad "
+        "expression reconstructed from the MIR on a grid of (align, offset) pairs.")
     valid_rules(facts, rep)
     place_rules(ctx, facts, rep)
     sib_rules(ctx, facts, rep) if False else None
